@@ -24,8 +24,7 @@ RULE = ("A case is a history over one fake node reached through the real Session
         "the ids of a connection were exhausted (a send had to wait).  Distinct by case digest.")
 ASSUMPTIONS = ["network, clock, executor and event loop are simulated (sim/); Cluster, Session, pools, connections, "
                "ResponseFuture, policies are the real classes",
-               "send_msg/close of the connection class are wrapped for observation only; cassandra.pool reads a clock "
-               "that creeps 1 us per read (otherwise borrow_connection spins at its deadline in virtual time)",
+               "send_msg/close of the connection class and pool.shutdown are wrapped for observation only",
                "pre-emption only at blocking operations ('blocking' parts) / additionally at every lock operation and "
                "clock read ('locks' part)"]
 
@@ -227,9 +226,9 @@ def _state_at_answer_timed_out(m, s):
     return bool(f is not None and f.pair.eb and type(f.pair.eb[0]).__name__ == "OperationTimedOut")
 
 
-def s_case(gran, pvs, grow=False):
+def s_case(gran, pvs, grow=False, **kw):
     if not grow:
-        return SP.s_case(st, "c09", gran, pvs)
+        return SP.s_case(st, "c09", gran, pvs, **kw)
     ev = st.one_of(
         st.tuples(st.just("send"), st.integers(0, 3)),
         st.tuples(st.just("answer"), st.integers(0, 400), st.sampled_from(["rows", "void", "overloaded", "drop"])),
@@ -240,7 +239,7 @@ def s_case(gran, pvs, grow=False):
         "mif": st.sampled_from([302, 303, 304]),
         "thr": st.sampled_from([2, 250, 1000]),
         "events": st.tuples(st.tuples(st.just("burst"), st.sampled_from([299, 300, 301, 302, 303]), st.integers(0, 3)),
-                            st.lists(ev, max_size=12)).map(lambda t: [t[0]] + t[1]),
+                            st.lists(ev, max_size=12)).map(lambda t: [list(t[0])] + [list(e) for e in t[1]]),
     })
 
 
@@ -252,6 +251,6 @@ def parts(tier):
                  quick_shards=2, thorough_shards=3),
         hyp_part("grow", lambda: s_case("blocking", [3, 4], grow=True), interpret, tier, quick=8, thorough=80,
                  quick_shards=1, thorough_shards=2),
-        hyp_part("locks", lambda: s_case("locks", [2, 3, 4, 4, 5]), interpret, tier, quick=40, thorough=700,
+        hyp_part("locks", lambda: s_case("locks", [2, 3, 4, 4, 5], mifs=(3, 3, 4, 4, 5, 8)), interpret, tier, quick=40, thorough=700,
                  quick_shards=1, thorough_shards=3),
     ]
